@@ -96,7 +96,7 @@ def guarded_process(buf, piece, delivered, cpu_limit=5.0):
         signal.signal(signal.SIGVTALRM, old)
 
 
-def explore(S, T, check_edge, max_hangs=3, cpu_limit=5.0, merged=True, state_cap=None):
+def explore(S, T, check_edge, max_hangs=3, cpu_limit=5.0, merged=True, state_cap=None, double_append=False):
     """Returns dict(states, transitions, violations=[(fails, pieces)], capped)."""
     n = len(S)
     b0 = make_buffer(T)
@@ -120,6 +120,23 @@ def explore(S, T, check_edge, max_hangs=3, cpu_limit=5.0, merged=True, state_cap
             exc = guarded_process(b, S[i : i + k], delivered, cpu_limit)
             transitions += 1
             fails = check_edge(i, nd, k, delivered, b, exc)
+            if double_append and not fails and k >= 2:
+                # the same characters handed over in TWO append() calls before the one process() call (a caller may
+                # buffer several reads): judged by the same oracle, and the buffer must end up in the same state
+                for j in ({k - 1, k // 2} if double_append == "both" else {k - 1}):
+                    b2 = copy.deepcopy(buf)
+                    d2 = []
+                    b2.append(S[i : i + j])
+                    exc2 = guarded_process(b2, S[i + j : i + k], d2, cpu_limit)
+                    transitions += 1
+                    fails = check_edge(i, nd, k, d2, b2, exc2)
+                    if not fails and exc is None and snap(b2) != snap(b):
+                        fails = [("append-append-process-differs", "threshold=%s" % T, "appending %r and %r before one process() leaves the buffer in another state than appending them at once" % (S[i : i + j][-20:], S[i + j : i + k][:20]))]
+                    if fails:
+                        violations.append((fails, path_to(parent, st, S) + [["append-only", S[i : i + j]], S[i + j : i + k]]))
+                        break
+                if fails:
+                    continue
             if fails:
                 violations.append((fails, path_to(parent, st, S) + [S[i : i + k]]))
                 if isinstance(exc, Hang):
